@@ -352,7 +352,7 @@ class _DocumentNav:
 
         # If it's a byte string, convert it to Unicode, treating it as UTF-8.
         if isinstance(value, bytes):
-            return value.decode("utf8")
+            return value.decode("utf8", "replace")
 
         # BeautifulSoup supports sequences of attribute values, so make sure the children are strings.
         if isinstance(value, Sequence):
